@@ -39,6 +39,10 @@ let handle = function
   | ["txt1"; q; h] -> show_o hx (c06_hinfo (n_of_int 1) (q = "q") (bytes_of_hex h))
   | ["uint"; w; h] -> show_o (fun x -> string_of_int (int_of_n x)) (c06_uint (n_of_int (int_of_string w)) (bytes_of_hex h))
   | ["ts"; h] -> show_o (fun x -> string_of_int (int_of_n x)) (c06_ts (bytes_of_hex h))
+  | ["ip6show"; h] -> let b = bytes_of_hex h in
+    let rec grp = function a :: b :: r -> n_of_int (int_of_n a * 256 + int_of_n b) :: grp r | _ -> [] in
+    hx (c06_ip6show (grp b))
+  | ["ip6read"; h] -> show_o (fun g -> String.concat "" (List.map (fun x -> Printf.sprintf "%04x" (int_of_n x)) g)) (c06_ip6read (bytes_of_hex h))
   | ["nstext"; h] -> show_o (fun n -> hx (wire_of_labels n)) (c06_nstext (bytes_of_hex h))
   | "rec" :: k :: code :: cl :: ttl :: ow :: fs ->
     let fld (w : string) : fval =
@@ -57,6 +61,8 @@ let handle = function
       | 'z' -> (match b32_display (bytes_of_hex a) with Ok t -> VWord t | _ -> failwith "b32")
       | 'o' -> VQuoted (bytes_of_hex a)
       | 'i' -> VIp4 (bytes_of_hex a)
+      | 'd' -> VDot
+      | 'j' -> let rec grp = function x :: y :: r -> n_of_int (int_of_n x * 256 + int_of_n y) :: grp r | _ -> [] in VWord (c06_ip6show (grp (bytes_of_hex a)))
       | 'l' -> VCharstrs (if a = "" then [] else List.map bytes_of_hex (String.split_on_char ',' a))
       | _ -> failwith "bad field" in
     let vs = List.map fld fs in
